@@ -47,6 +47,16 @@ impl Session {
         }
     }
 
+    /// Verification hook: a session with the given keys (a party that encrypts under keys nobody
+    /// negotiated, e.g. the all-zero key).
+    #[cfg(discv5_verif)]
+    pub(crate) fn verif_with_keys(encryption_key: [u8; 16], decryption_key: [u8; 16]) -> Self {
+        Session::new(Keys {
+            encryption_key,
+            decryption_key,
+        })
+    }
+
     /// A new session has been established. Update this session based on the new session.
     pub fn update(&mut self, new_session: Session) {
         // Optimistically assume the new keys are canonical.
